@@ -18,7 +18,7 @@ from . import families as F
 from . import tlc
 from .audit import AuditGen
 
-VALUES = [3.0, -2.5, 1.0, 0.0, 2.0 ** -70, -1e-20, 1e-16, 7]
+VALUES = [3.0, -2.5, 1.0, 0.0, 2.0 ** -70, -1e-20, 1e-16, 7, float(np.nextafter(1e-16, 1)), -1.5e-16, 2.0 ** -52, 3e-16, -1e-15, 1e-300]
 
 
 def close(a, b, ulps=16):
